@@ -21,7 +21,8 @@ def rule_dims(ctx, py):
     from .. import pysym
     from ..poly import Rat
     for name, side in (("kf_units_dimensions", "_substrates"), ("kr_units_dimensions", "_products")):
-        f = py.fn(RX + name)
+        from .. import pynorm
+        f = pynorm.desummed(py.fn(RX + name))      # n = sum(...) is read as the loop it abbreviates
         rets = [r for r in ast.walk(f) if isinstance(r, ast.Return)]
         ctx.need(len(rets) == 1 and isinstance(rets[0].value, ast.Call), R, "%s: return not recognised" % name)
         # the accumulator: the one local that is updated inside the loop
@@ -111,10 +112,48 @@ def rule_split(ctx, py):
     ctx.check(len(rets) == 1 and pyfe.src(rets[0].value).replace(" ", "") in ("(fwd,rev)", "fwd,rev"), R, rets[0], f._qual,
               "returns (fwd, rev)", "", "order of the pair changed")
     g = py.fn(RX + "equilibrium_constant")
-    src = pyfe.src(g)
-    ctx.check("return self.kf / self.kr" in src and "r[i] = vf / vr" in src, "C19.K", g, g._qual, "K = kf / kr (scalar and "
-              "per-environment)", "", "K is not forward over reverse")
-    ctx.check("if self.kr.value == 0:" in src and "if vr.value == 0:" in src, "C19.K", g, g._qual, "kr = 0 yields None", "", "")
+    from .. import pysym
+    divs = [n for n in ast.walk(g) if isinstance(n, ast.BinOp) and isinstance(n.op, ast.Div)]
+
+    def side_of(e):
+        """('kf' | 'kr', environment key or None) when e is that constant (itself or its value in one environment)"""
+        e = pysym.inline(e, g)
+        t = pyfe.src(e)
+        if t in ("self.kf", "self.kr"):
+            return t[5:], None
+        if isinstance(e, ast.Call) and pyfe.call_name(e).endswith("get_value_in_env") and len(e.args) >= 2 and \
+                pyfe.src(e.args[0]) in ("self.kf", "self.kr"):
+            return pyfe.src(e.args[0])[5:], pyfe.src(e.args[1])
+        return None, None
+    okk = len(divs) >= 2
+    for d_ in divs:
+        (a, ka), (b, kb) = side_of(d_.left), side_of(d_.right)
+        okk = okk and a == "kf" and b == "kr" and ka == kb
+    ctx.check(okk, "C19.K", g, g._qual, "K = kf / kr (scalar and per-environment)", "every quotient formed is the forward "
+              "constant over the reverse constant of the same environment", "K is not forward over reverse")
+    # kr = 0 yields None: every quotient is formed only where its denominator was tested non-zero
+    at = {}
+
+    def on(node, facts):
+        for d_ in divs:
+            if any(x is d_ for x in ast.walk(node)) and not isinstance(node, (ast.If, ast.For, ast.While)):
+                at[id(d_)] = (node, set(facts))
+    pya.must_facts(g, on_stmt=on)
+    okz = len(at) == len(divs)
+    for d_ in divs:
+        if id(d_) not in at:
+            continue
+        node, facts = at[id(d_)]
+        # conditional expressions between the statement and the quotient contribute their test
+        p_, c_ = pyfe.parent(d_), d_
+        while p_ is not None and p_ is not node:
+            if isinstance(p_, ast.IfExp) and c_ is not p_.test:
+                facts |= set(pya.atoms(p_.test, c_ is p_.body))
+            p_, c_ = pyfe.parent(p_), p_
+        den = pyfe.src(d_.right)
+        okz = okz and ((den + ".value == 0", False) in facts or (den + " == 0", False) in facts)
+    ctx.check(okz, "C19.K", g, g._qual, "kr = 0 yields None", "every quotient is reached only where its denominator tested "
+              "non-zero", "a quotient is formed without the zero test on the reverse constant")
     # the engine splits every reaction and stacks forward, reverse
     h = py.fn("librdengine.LibRDEngine.setup")
     src = pyfe.src(h).replace(" ", "")
